@@ -14,6 +14,7 @@ FN = "functions.ssi.SSI_multi_setup"
 
 
 def check(prog, run):
+    astq.shortcut_obligations(prog, run, ["functions.gen.pre_multisetup", "functions.ssi.SSI_multi_setup"])
     run.rule("O-gain", "SSI_multi_setup(Y[setup0 ~ g0, setups>=1 ~ gk]): Obs_all homogeneous in g0 only (gk exponent 0), A of degree 0; "
              "SSI_poles on it gives Fn ~ 1/s, Xi ~ 1, Phi ~ 1", 12)
     run.rule("O-hom", "no degree-mixing sum / non-homogeneous inverse / scale-dependent decision in SSI_multi_setup and its callees", 1)
